@@ -833,9 +833,9 @@ pub fn property() -> Property {
             "reference encoders are pinned to the fixed addresses of the repository's unit tests and BIP-173/350 vectors at start-up",
         ],
         subs: vec![
-            Sub { name: "roundtrip", kind: Kind::Tape { max_len: 160, quick: 100_000, thorough: 3_000_000, f: roundtrip } },
-            Sub { name: "constructors", kind: Kind::Tape { max_len: 400, quick: 20_000, thorough: 600_000, f: constructors } },
-            Sub { name: "near_valid", kind: Kind::Tape { max_len: 240, quick: 200_000, thorough: 6_000_000, f: near_valid } },
+            Sub { name: "roundtrip", kind: Kind::Tape { max_len: 160, quick: 600_000, thorough: 9_000_000, f: roundtrip } },
+            Sub { name: "constructors", kind: Kind::Tape { max_len: 400, quick: 120_000, thorough: 1_800_000, f: constructors } },
+            Sub { name: "near_valid", kind: Kind::Tape { max_len: 240, quick: 1_200_000, thorough: 18_000_000, f: near_valid } },
         ],
         known: vec![Known {
             key: KF_BLINDED_SHORT,
